@@ -35,5 +35,8 @@ def c07_local_class_instantiated_in_place(case, what):
             or what.startswith("flatten raised ModificationTargetNotFound")
             # a lost modification includes a lost binding: its declaration equation is then missing
             or what.startswith("declaration equations (and unconnected-flow equations) are not one per bound")
+            # ... and for a parameter the lost binding is the missing value of the flat variable (round-5 oracle:
+            # right sides of the declarations nobody else modifies), e.g. `parameter T1 y1 = 0` in a local base class
+            or what.startswith("the declaration equation of ")
             or what in ("disagreement:flatten:status", "disagreement:flatten:variables", "disagreement:flatten:equations",
                         "disagreement:flatten:initial-equations", "disagreement:flatten:declaration-equations"))
